@@ -402,6 +402,61 @@ def gen_indata(rnd, n, out):
         out.append(Case(lines, 'indata'))
 
 
+def gen_values(rnd, n, out):
+    """the template entry points DataSet::getData(value, offset) / setData(value, offset) through a view, and on the
+    array itself as a control: scalar and short-vector values x offsets {empty, zeros, in-window, out-of-window} x windows
+    of 1 and more elements x ranks 1..3.  The calls that make the unrepaired templates run over the value (scalar with an
+    empty - for setData also an all-zero - offset) abort the driver: each case ends with one of them."""
+    for _ in range(n):
+        rank = rnd.choice([1, 1, 2, 3])
+        shape = [rnd.choice([2, 3, 5, 8, 20 if rank == 1 else 4]) for _ in range(rank)]
+        hdr = arr_line(shape, [Dim('L', n=0) for _ in shape])
+        origin = [rnd.randrange(0, n_) for n_ in shape]
+        if rnd.random() < 0.3:
+            window = [1] * rank                                # a window of one element
+        else:
+            window = [rnd.randrange(1, n_ - o + 1) for o, n_ in zip(origin, shape)]
+        lines = [hdr, 'view %s ; %s' % (' '.join(map(str, window)), ' '.join(map(str, origin)))]
+
+        def offset(kind):
+            if kind == 'empty':
+                return []
+            if kind == 'zeros':
+                return [0] * rank
+            if kind == 'inside':
+                return [rnd.randrange(0, w) for w in window]
+            if kind == 'outside':
+                o = [rnd.randrange(0, w) for w in window]
+                j = rnd.randrange(rank)
+                o[j] = window[j] + rnd.choice([0, 1, 3])
+                return o
+            return [0] * (rank + 1)                            # wrong rank
+
+        one = all(w == 1 for w in window)
+
+        def risky(op, kind, off):
+            # the unrepaired templates transfer the whole window from / to one scalar
+            return kind == 's' and not one and ((op == 'vget' and off == []) or (op == 'vset' and all(x == 0 for x in off)))
+
+        def line(op, kind, off):
+            o = ' '.join(u(x) for x in off)
+            return '%s %s ; %s' % (op, kind, o) + (' ; %d' % rnd.choice([100, 500, -7]) if op in ('vset', 'aset') else '')
+
+        for _ in range(rnd.randrange(4, 9)):
+            op = rnd.choice(['vget', 'vget', 'vset', 'aget', 'aset'])
+            kind = rnd.choice(['s', 's', 's', str(rnd.choice([1, 2, 3, max(1, window[-1])]))])
+            off = offset(rnd.choice(['zeros', 'inside', 'inside', 'outside', 'empty', 'rank']))
+            if risky(op, kind, off):
+                continue
+            lines.append(line(op, kind, off))
+            if rnd.random() < 0.3:
+                lines.append('aread')
+        lines.append('aread')
+        op = rnd.choice(['vget', 'vget', 'vset', 'vset'])
+        lines.append(line(op, 's', offset('empty' if op == 'vget' else rnd.choice(['empty', 'zeros']))))
+        out.append(Case(lines, 'view-value-probe'))
+
+
 def directed():
     """the probes of DESIGN.md section 9 and the repository's own test requests"""
     e = enc
@@ -527,6 +582,7 @@ class C17(Prop):
         gen_malformed(rnd, (50 if quick else 500) * k, out)
         gen_views(rnd, (600 if quick else 8000) * k, out)
         gen_indata(rnd, (40 if quick else 400) * k, out)
+        gen_values(rnd, (80 if quick else 800) * k, out)
         # on the pinned tree some hundred cases abort the driver (read past the argument vectors, HDF5 overrun after a wrapped
         # window test); spread them evenly over the driver processes (the engine gives up on a shard after 400 restarts)
         head, tail = out[:len(directed())], out[len(directed()):]
@@ -570,7 +626,15 @@ class C17(Prop):
             return {'kind': 'slice', 'impl': a.split(' ')[0], 'spec': b.split(' ')[0], 'case': case.lines[k]}
         if op == 'indata':
             return {'defect': 'extent-check-wraps', 'kind': 'indata'}
+        if op in ('vget', 'vset', 'aget', 'aset'):
+            if t[1] == 's' and op[0] == 'v':
+                # scalar value through a view: the templates of DataSet.hpp hand an empty count on
+                return {'defect': 'scalar-template-empty-count', 'kind': 'view'}
+            return {'kind': 'value', 'op': op, 'impl': a.split(' ')[0], 'spec': b.split(' ')[0], 'case': case.lines[k]}
         if op in ('view', 'vread', 'vwrite', 'vextent', 'aread'):
+            if any(l.startswith('vset s') or l.startswith('vget s') for l in case.lines[:k]) and not \
+                    any(tok.startswith('0x') for l in case.lines[:k + 1] for tok in l.split(' ')):
+                return {'defect': 'scalar-template-empty-count', 'kind': 'view'}
             big = any(tok.startswith('0x') for l in case.lines[:k + 1] for tok in l.split(' '))
             if big:
                 return {'defect': 'window-check-wraps', 'kind': 'view'}
